@@ -11,6 +11,7 @@ Definition run_line (l : bytes) : bytes :=
       else if beq kind (s2b "pcur") then run_pcur args
       else if beq kind (s2b "bn") then run_bn args
       else if beq kind (s2b "store") then run_store args
+      else if beq kind (s2b "tm") then run_tm args
       else if beq kind (s2b "descr") then run_descr args
       else if beq kind (s2b "descrd") then run_descrd args
       else if beq kind (s2b "res") then run_res args
